@@ -556,13 +556,48 @@ CONTRACTS['reset'] = {
     'locals': ['bit', 'p1', 'one', 'norm', 'i'],
 }
 
+
+OPS_MAX = 4096
+CONTRACTS['getQasm'] = {
+    'contract': [
+        R('__CPROVER_is_fresh(self, sizeof(*self))'),
+        R('self->m_qubits >= 0 && self->m_qubits <= NMAX'),
+        R('self->m_ops.size <= %d && self->m_ops.cap == self->m_ops.size' % OPS_MAX),
+        R('__CPROVER_is_fresh(self->m_ops.data, (self->m_ops.size ? self->m_ops.size : 1) * sizeof(bl_str))'),
+        R('bl_exc == 0'),
+        A('g_app_item, g_hdr'),
+        E('getQasm.emits_header_qreg_creg_then_every_op', '__CPROVER_return_value.n_appended == 3 + self->m_ops.size', ['C05']),
+        E('getQasm.header', '(g_app_k == 0) ==> (g_app_item.n == 1 && PIECE_LIT(g_app_item.p[0], LIT("OPENQASM 2.0;\\ninclude \\"qelib1.inc\\";\\n")))', ['C05']),
+        E('getQasm.qreg_sized_to_qubits', '(g_app_k == 1) ==> (g_app_item.n == 3 && PIECE_LIT(g_app_item.p[0], LIT("qreg q[")) && PIECE_INT(g_app_item.p[1], self->m_qubits) && PIECE_LIT(g_app_item.p[2], LIT("];\\n")))', ['C05']),
+        E('getQasm.creg_sized_to_qubits', '(g_app_k == 2) ==> (g_app_item.n == 3 && PIECE_LIT(g_app_item.p[0], LIT("creg c[")) && PIECE_INT(g_app_item.p[1], self->m_qubits) && PIECE_LIT(g_app_item.p[2], LIT("];\\n")))', ['C05']),
+        E('getQasm.ops_in_execution_order', '(g_app_k >= 3 && g_app_k < 3 + self->m_ops.size) ==> CEQ(g_app_item, self->m_ops.data[g_app_k - 3])', ['C05']),
+        E('getQasm.no_exception', 'bl_exc == 0', ['C05', 'C12']),
+    ],
+    'loops': {
+        0: {'assigns': '__i0, total', 'invariants': [('getQasm.size_loop.bounds', '__i0 <= self->m_ops.size')], 'decreases': 'self->m_ops.size - __i0'},
+        1: {'before': 'g_hdr = g_app_item;',
+            'assigns': '__i1, out, g_app_item',
+            'invariants': [
+                ('getQasm.append_loop.bounds', '__i1 <= self->m_ops.size && out.n_appended == 3 + __i1'),
+                ('getQasm.append_loop.prefix_appended', '(g_app_k < 3) ? CEQ(g_app_item, g_hdr) : ((g_app_k < 3 + __i1) ==> CEQ(g_app_item, self->m_ops.data[g_app_k - 3]))'),
+            ],
+            'decreases': 'self->m_ops.size - __i1'},
+    },
+    'locals': ['header', 'qreg', 'creg', 'total', 'out'],
+}
+
 for _g in ('h', 'x', 'y', 'z', 'rx', 'ry', 'rz'):
     CONTRACTS[_g] = {'contract': gate_contract(_g)}
 
 SIM_FLAGS = ['UF']
 HARNESSES = [
+    dict(name='getQasm', fn='getQasm', replace=[], flags=SIM_FLAGS, props=['C05', 'C12'], timeout=600, no_checks=['--unsigned-overflow-check'], bounded_defs=['NMAX=2', 'OPS_MAX_B=3']),
     dict(name='reset', fn='reset', replace=[], flags=SIM_FLAGS, props=['C04', 'C03', 'C05', 'C06', 'C12'], timeout=600),
-    dict(name='cx', fn='cx', replace=['ensureQubitActive'], flags=SIM_FLAGS, props=['C01', 'C05', 'C06', 'C03', 'C12'], timeout=1200),
+    # cx is discharged as a case split on the operand order (the union covers every call)
+    dict(name='cx_control_below_target', fn='cx', replace=['ensureQubitActive'], flags=SIM_FLAGS, props=['C01', 'C05', 'C06', 'C03', 'C12'], timeout=1500, unwind=5,
+         pre=['__CPROVER_assume(a1 < a2);']),
+    dict(name='cx_control_not_below_target', fn='cx', replace=['ensureQubitActive'], flags=SIM_FLAGS, props=['C01', 'C05', 'C06', 'C03', 'C12'], timeout=1500, unwind=5,
+         pre=['__CPROVER_assume(a1 >= a2);']),
     dict(name='ensureQubitActive', fn='ensureQubitActive', replace=[], flags=SIM_FLAGS, props=['C06', 'C12'], timeout=120),
     dict(name='allocateQubit', fn='allocateQubit', replace=[], flags=SIM_FLAGS, props=['C03', 'C06', 'C12'], timeout=600),
     dict(name='applySingleQubitGate', fn='applySingleQubitGate', replace=['ensureQubitActive'], flags=SIM_FLAGS,
